@@ -72,7 +72,7 @@ def run(ck):
     ck.prove(["AsModel.Theorems.C14", "AsModel.Theorems.C14Parse"])
     ck.build_harness("inproc")
     res = t2.run(ck)
-    mm = t2.record(ck, res, ("nodes", "body", "validity", "status", "locations", "wellformed"), "node definitions, node references and syntactic validity")
+    mm = t2.record(ck, res, ("nodes", "body", "validity", "status", "locations", "wellformed", "tree"), "node definitions, node references and syntactic validity")
     for m in mm:
         if m["part"] == "wellformed":
             ck.report("node-refs:" + hexs(m["text"])[:40], "the generated code refers to a pattern-tree node that is not defined exactly once", dict(invocation=m["text"], detail=m["detail"]))
@@ -81,10 +81,16 @@ def run(ck):
                       dict(invocation=m["text"], detail=m["detail"]))
         elif m["part"] == "validity":
             ck.report("invalid-rust:" + hexs(m["text"])[:40], "the macro accepts the invocation but the generated code is not syntactically valid Rust", dict(invocation=m["text"], detail=m["detail"]))
+    # node kinds / child order / rest flags / positions: the model parser is sound for the declarative grammar (C15_accepted_in_grammar),
+    # i.e. its tree IS the written pattern; a real tree that differs on an accepted input does not mirror what was written
+    for m in mm:
+        if m["part"] == "tree":
+            ck.report("tree-differs:" + hexs(m["text"])[:40], "the pattern tree the macro records for an accepted invocation (node kinds, child order, rest flags, source positions) is not the tree of the pattern as written",
+                      dict(invocation="assert_struct!(%s)" % m["text"], part=m["part"], detail=m["detail"][:1500]))
     histories(ck)
     inputs, outs = t1.run(ck)
     parsetie.record(ck, [t for _, t in inputs], outs, "C14: node ids handed out by the parser, speculative parses included")
-    others = [m for m in mm if m["part"] not in ("validity", "wellformed")]
+    others = [m for m in mm if m["part"] not in ("validity", "wellformed", "tree")]
     if others and not [v for v in ck.violations if not v["no_input"]]:
         ck.report("corr:T2", "the model of the node tree / code generator no longer matches the real expansion (%d inputs differ)" % len(others),
                   dict(broken="correspondence T2", theorems=["C14_ids_nodup", "C14_refs_defined", "C14_root_node"], first=others[:3]), no_input=True)
